@@ -62,10 +62,102 @@ def _external(smt2, cmd, timeout):
             pass
 
 
+def _watchdog_check(s, seconds):
+    """s.check() with a hard wall-clock limit (z3 does not always honour its
+    own timeout while building models for quantified formulas)"""
+    import signal
+
+    def on_alarm(signum, frame):
+        z3.main_ctx().interrupt()
+    old = signal.signal(signal.SIGALRM, on_alarm)
+    signal.alarm(int(seconds))
+    try:
+        try:
+            return s.check()
+        except z3.Z3Exception:
+            return z3.unknown
+    finally:
+        signal.alarm(0)
+        signal.signal(signal.SIGALRM, old)
+
+
+def solve_isolated(ob, second_opinion=False, on_sat=None):
+    """solve in a forked child with a hard deadline (z3 does not always
+    honour its timeout or interrupts); the child also runs `on_sat(ob)`
+    (counterexample replay) while the model is alive.  Returns a dict."""
+    import json
+    import select
+    t0 = time.time()
+    deadline = (8 if ob.kind == 'canary' else
+                3 * TIMEOUT_MS / 1000 + 2 * EXT_TIMEOUT_S + 30)
+    r, w = os.pipe()
+    pid = os.fork()
+    if pid == 0:
+        os.close(r)
+        out = {'status': 'unknown', 'backend': 'z3', 'extra': None}
+        try:
+            solve(ob, second_opinion=second_opinion)
+            out['status'] = ob.status
+            out['backend'] = ob.backend
+            out['second'] = getattr(ob, 'second', None)
+            if ob.status == 'sat' and ob.kind == 'proof':
+                out['model'] = model_to_dict(ob.model)
+                if on_sat is not None:
+                    try:
+                        out['extra'] = on_sat(ob)
+                    except Exception as e:
+                        out['extra'] = {'status': 'no-replay',
+                                        'why': repr(e)[:300]}
+        except BaseException as e:         # noqa
+            out['error'] = repr(e)[:300]
+        try:
+            os.write(w, json.dumps(out, default=str).encode())
+        finally:
+            os._exit(0)
+    os.close(w)
+    buf = b''
+    end = time.time() + deadline
+    while True:
+        left = end - time.time()
+        if left <= 0:
+            break
+        rd, _, _ = select.select([r], [], [], left)
+        if not rd:
+            break
+        chunk = os.read(r, 65536)
+        if not chunk:
+            break
+        buf += chunk
+    os.close(r)
+    try:
+        os.kill(pid, 9)
+    except OSError:
+        pass
+    os.waitpid(pid, 0)
+    res = {'status': 'unknown', 'backend': 'z3(killed after %ds)' % deadline}
+    if buf:
+        try:
+            res = json.loads(buf.decode())
+        except ValueError:
+            pass
+    res['time'] = time.time() - t0
+    return res
+
+
 def solve(ob, want_model=True, second_opinion=False):
     t0 = time.time()
+    if ob.kind == 'canary':
+        # only `unsat` matters (vacuity); no model construction effort
+        s = build_solver(ob, 3000)
+        s.set('smt.mbqi', False)
+        r = _watchdog_check(s, 6)
+        ob.backend = 'z3-%s(api)' % z3.get_version_string()
+        ob.status = 'unsat' if r == z3.unsat else (
+            'sat' if r == z3.sat else 'unknown')
+        ob.time = time.time() - t0
+        return ob.status
     s = build_solver(ob)
-    r = s.check()
+    r = _watchdog_check(s, TIMEOUT_MS / 1000 + 5)
     ob.backend = 'z3-%s(api)' % z3.get_version_string()
     if r == z3.unsat:
         ob.status = 'unsat'
@@ -84,7 +176,7 @@ def solve(ob, want_model=True, second_opinion=False):
             s2 = build_solver(ob, TIMEOUT_MS)
             for k, v in opts.items():
                 s2.set(k, v)
-            r2 = s2.check()
+            r2 = _watchdog_check(s2, TIMEOUT_MS / 1000 + 5)
             if r2 == z3.unsat:
                 ob.status = 'unsat'
                 ob.backend += '+retry%s' % (list(opts)[0],)
